@@ -216,6 +216,11 @@ def mk_comm(op, items):
 def mk_deref(p):
     if isinstance(p, tuple) and p and p[0] == 'addr':
         return p[1]
+    # *(v.end() - 1)  ==  v.back()
+    if isinstance(p, tuple) and len(p) == 3 and p[0] == 'add' and ('const', -1) in p[1:]:
+        e = [x for x in p[1:] if x != ('const', -1)]
+        if e and isinstance(e[0], tuple) and e[0][0] == 'call' and e[0][1].endswith('::end') and len(e[0]) == 3:
+            return ('call', e[0][1][:-len('end')] + 'back', e[0][2])
     return ('deref', p)
 
 
@@ -417,8 +422,11 @@ class SymExec:
         if k == 'UnaryExprOrTypeTraitExpr':
             at = (e.get('argType') or {}).get('qualType')
             cv = tu.sd(e).get('cv')
-            return ('sizeof', at or '?', int(cv) if cv is not None else None) if e.get('name') == 'sizeof' else \
-                ('opaque', k, e.get('id'))
+            if e.get('name') == 'sizeof':
+                return ('sizeof', at or '?', int(cv) if cv is not None else None)
+            if e.get('name') in ('alignof', '__alignof', '_Alignof') and cv is not None:
+                return ('const', int(cv))
+            return ('opaque', k, e.get('id'))
         cv = tu.sd(e).get('cv')
         if cv is not None and k not in ('CXXMemberCallExpr', 'CXXOperatorCallExpr', 'CallExpr', 'DeclRefExpr',
                                         'MemberExpr'):
@@ -973,6 +981,7 @@ class SymExec:
                     this_nf = st.this
                 return self.splice(callee, this_nf, list(ev.value), st, depth, n['id'])
             muts = []
+            rebind = None
             lname = last(self.call_name(sd))
             if obj is not None and sd.get('rec') and not has_body and k not in ('CXXConstructExpr', 'CXXTemporaryObjectExpr'):
                 if not is_const_method(sd) and lname not in ACCESS_ONLY:
@@ -981,6 +990,8 @@ class SymExec:
                     if lv is not None:
                         p = ('var', lv)
                         st.env.pop(lv, None)
+                        if lname == 'operator=' and len(ev.value) == 1 and self._same_class(self.ct(obj), self.ct(args[0])):
+                            rebind = (lv, ev.value[0])      # copy / move assignment of a local value object
                     if self.is_place(p) and p != ('this',):
                         muts.append((p, lname))
             if not has_body:
@@ -1005,6 +1016,8 @@ class SymExec:
                 m.value = ev.value
                 st.events.append(m)
                 self.bump(p, st)
+            if rebind is not None:
+                st.env[rebind[0]] = rebind[1]
             return
 
     def on_init(self, e, st, depth=0):
